@@ -114,9 +114,19 @@ std::vector<bool> toVB(const Model& m)
    return v;
 }
 
+/// when set, mk() hands over storage whose bits behind size() are 1 (left over from a larger
+/// std::vector<bool>, moved into the bitset): an implementation that reads behind its size inside
+/// the last storage word - invisible to ASan - then sees ones instead of zeros
+bool gDirty = false;
+
 DynamicBitset mk(const Model& m)
 {
-   return DynamicBitset(toVB(m));
+   if (!gDirty) return DynamicBitset(toVB(m));
+   std::vector<bool> v(m.size() + 70, true);
+   v.resize(m.size());
+   for (size_t i = 0; i < m.size(); ++i) v[i] = m[i] != 0;
+   out.stat("dirty_storage_bitsets");
+   return DynamicBitset(std::move(v));
 }
 
 /// the state as the implementation reports it through size() and test()
@@ -193,8 +203,14 @@ void collect(const std::string& key, const char* form, GB gb, GE ge, const std::
    if (got != expect) failObs(key + "|sequence", std::string(form) + " visited " + showSeq(got) + " expected " + showSeq(expect));
 }
 
-void observe(DynamicBitset& d, const Model& m, bool beyond)
+/// sel == ALL: every observer and every iteration form (exhaustive modes); otherwise (random histories)
+/// sel chooses one forward and one reverse iteration form and whether the second == probe runs
+const uint64_t ALL = ~uint64_t(0);
+
+void observe(DynamicBitset& d, const Model& m, bool beyond, uint64_t sel = ALL)
 {
+   const bool all = sel == ALL;
+   const unsigned ff = all ? 99 : (unsigned)(sel % 5), rf = all ? 99 : (unsigned)((sel / 5) % 3);
    const DynamicBitset& c = d;
    const size_t n = m.size();
    prog.set(gIdx, "observe after {" + gDescr + "}");
@@ -215,9 +231,13 @@ void observe(DynamicBitset& d, const Model& m, bool beyond)
          const size_t ps[] = { n, n + 1, n + 3, n + 64 };
          for (size_t p : ps)
          {
+            // the probed function is the first word of the descriptor: a sanitizer report gets the key of that function
+            prog.set(gIdx, fmt("test(pos) pos=%zu size=%zu, observing after {", p, n) + gDescr + "}");
             expectOutOfRange("test(pos)", p, n, [&] { return c.test(p); });
+            prog.set(gIdx, fmt("[]const pos=%zu size=%zu, observing after {", p, n) + gDescr + "}");
             expectOutOfRange("[]const", p, n, [&] { return c[p]; });
          }
+         prog.set(gIdx, "observe after {" + gDescr + "}");
       }
       size_t cnt = 0;
       for (char b : m) cnt += b ? 1 : 0;
@@ -250,7 +270,7 @@ void observe(DynamicBitset& d, const Model& m, bool beyond)
       {
          DynamicBitset same = mk(m);
          if (!(c == same) || !(same == c) || !(c == c)) failObs("operator==|false-for-equal", "compared with an equal bitset of the same size " + show(m));
-         if (n > 0)
+         if ((n > 0) && (all || ((sel / 15) % 2 == 0)))
          {
             Model o = m;
             size_t p = gHist % n;
@@ -266,11 +286,12 @@ void observe(DynamicBitset& d, const Model& m, bool beyond)
       failObs("observe|exception", "unexpected exception " + excName(e) + " model " + show(m));
    }
 
-   // iteration: the six documented forms
+   // iteration: range-for on a non-const / const bitset and the six begin/end pairs
    const std::vector<size_t> asc = setPositions(m);
    const std::vector<size_t> desc(asc.rbegin(), asc.rend());
    const size_t limit = n + 2;
    if (asc.empty()) out.stat(n == 0 ? "iter.empty_bitset" : "iter.all_zero_bitset");
+   if (all || (ff == 0))
    {
       // range-for, exactly as a user writes it
       std::vector<size_t> got;
@@ -279,18 +300,22 @@ void observe(DynamicBitset& d, const Model& m, bool beyond)
       catch (const std::exception& ex) { failObs("iterate-forward|exception", "range-for threw " + excName(ex) + " model " + show(m)); ok = true; got = asc; }
       if (!ok) failObs("iterate-forward|no-termination", "range-for got " + showSeq(got));
       else if (got != asc) failObs("iterate-forward|sequence", "range-for visited " + showSeq(got) + " expected " + showSeq(asc));
-      got.clear(); ok = true;
+   }
+   if (all || (ff == 1))
+   {
+      std::vector<size_t> got;
+      bool ok = true;
       try { for (auto p : c) { got.push_back(p); if (got.size() > limit) { ok = false; break; } } }
       catch (const std::exception& ex) { failObs("iterate-forward|exception", "range-for (const) threw " + excName(ex) + " model " + show(m)); ok = true; got = asc; }
       if (!ok) failObs("iterate-forward|no-termination", "range-for (const) got " + showSeq(got));
       else if (got != asc) failObs("iterate-forward|sequence", "range-for (const) visited " + showSeq(got) + " expected " + showSeq(asc));
    }
-   collect("iterate-forward", "begin()..end()", [&] { return d.begin(); }, [&] { return d.end(); }, asc, limit);
-   collect("iterate-forward", "begin()..end() const", [&] { return c.begin(); }, [&] { return c.end(); }, asc, limit);
-   collect("iterate-forward", "cbegin()..cend()", [&] { return c.cbegin(); }, [&] { return c.cend(); }, asc, limit);
-   collect("iterate-reverse", "rbegin()..rend()", [&] { return d.rbegin(); }, [&] { return d.rend(); }, desc, limit);
-   collect("iterate-reverse", "rbegin()..rend() const", [&] { return c.rbegin(); }, [&] { return c.rend(); }, desc, limit);
-   collect("iterate-reverse", "crbegin()..crend()", [&] { return c.crbegin(); }, [&] { return c.crend(); }, desc, limit);
+   if (all || (ff == 2)) collect("iterate-forward", "begin()..end()", [&] { return d.begin(); }, [&] { return d.end(); }, asc, limit);
+   if (all || (ff == 3)) collect("iterate-forward", "begin()..end() const", [&] { return c.begin(); }, [&] { return c.end(); }, asc, limit);
+   if (all || (ff == 4)) collect("iterate-forward", "cbegin()..cend()", [&] { return c.cbegin(); }, [&] { return c.cend(); }, asc, limit);
+   if (all || (rf == 0)) collect("iterate-reverse", "rbegin()..rend()", [&] { return d.rbegin(); }, [&] { return d.rend(); }, desc, limit);
+   if (all || (rf == 1)) collect("iterate-reverse", "rbegin()..rend() const", [&] { return c.rbegin(); }, [&] { return c.rend(); }, desc, limit);
+   if (all || (rf == 2)) collect("iterate-reverse", "crbegin()..crend()", [&] { return c.crbegin(); }, [&] { return c.crend(); }, desc, limit);
 }
 
 // ------------------------------------------------------------------ iterator walks with ++ / --
@@ -408,6 +433,7 @@ void adoptGrowth(const DynamicBitset& d, Model& m, size_t pos)
 
 void opSetPos(DynamicBitset& d, Model& m, size_t pos, bool val, bool defaultArg)
 {
+   if (defaultArg) val = true;
    beginOp("set(pos)", fmt("pos=%zu val=%d%s state=", pos, (int)val, defaultArg ? " (default)" : "") + show(m));
    guarded([&] {
       DynamicBitset& r = defaultArg ? d.set(pos) : d.set(pos, val);
@@ -529,6 +555,7 @@ void opInvert(DynamicBitset& d, Model& m, int how)
 
 void opResize(DynamicBitset& d, Model& m, size_t count, bool init, bool defaultArg)
 {
+   if (defaultArg) init = false;
    beginOp("resize", fmt("count=%zu init=%d%s state=", count, (int)init, defaultArg ? " (default)" : "") + show(m));
    guarded([&] { if (defaultArg) d.resize(count); else d.resize(count, init); });
    m.resize(count, init ? 1 : 0);
@@ -789,23 +816,32 @@ void exhUnary(unsigned stateIdx, unsigned kind)
    const Model s = stateOf(stateIdx);
    const std::vector<size_t> P = positionsFor(s.size());
    uint64_t steps = 0;
-   auto fresh = [&](Model& m) { m = s; return mk(s); };
+   // every step is run on clean storage and on storage with ones behind size()
+   auto fresh = [&](Model& m, bool dirty) { m = s; gDirty = dirty; DynamicBitset d = mk(s); gDirty = false; return d; };
    auto each = [&](const std::function<void(DynamicBitset&, Model&, size_t)>& f) {
       for (size_t p : P)
+         for (int dirty = 0; dirty < 2; ++dirty)
+         {
+            Model m;
+            DynamicBitset d = fresh(m, dirty != 0);
+            gDirty = dirty != 0;
+            f(d, m, p);
+            gDirty = false;
+            observe(d, m, true);
+            ++steps;
+         }
+   };
+   auto once = [&](const std::function<void(DynamicBitset&, Model&)>& f) {
+      for (int dirty = 0; dirty < 2; ++dirty)
       {
          Model m;
-         DynamicBitset d = fresh(m);
-         f(d, m, p);
+         DynamicBitset d = fresh(m, dirty != 0);
+         gDirty = dirty != 0;
+         f(d, m);
+         gDirty = false;
          observe(d, m, true);
          ++steps;
       }
-   };
-   auto once = [&](const std::function<void(DynamicBitset&, Model&)>& f) {
-      Model m;
-      DynamicBitset d = fresh(m);
-      f(d, m);
-      observe(d, m, true);
-      ++steps;
    };
    switch (kind)
    {
@@ -855,7 +891,7 @@ void exhUnary(unsigned stateIdx, unsigned kind)
       // every ++/-- script of length 4 (pre and post forms) from begin and from end, all four iterator kinds,
       // plus the complete walk there and back
       Model m;
-      DynamicBitset d = fresh(m);
+      DynamicBitset d = fresh(m, (stateIdx & 1) != 0);
       const size_t cnt = setPositions(s).size();
       for (int k = 0; k < 4; ++k)
          for (int startEnd = 0; startEnd < 2; ++startEnd)
@@ -899,8 +935,10 @@ void exhBinary(unsigned ai)
       for (int which = 0; which < 3; ++which)
       {
          Model m = a;
+         gDirty = ((bi + which) & 1) != 0;
          DynamicBitset d = mk(a);
          opBinary(d, m, b, which, false);
+         gDirty = false;
          // complete observation for equal sizes on a sample, light otherwise (every state is observed completely in exh1)
          if ((a.size() == b.size()) && ((bi + which) % 7 == 0)) observe(d, m, false);
          ++steps;
@@ -995,7 +1033,7 @@ void history(uint64_t idx, uint64_t seed, const std::string& mode, unsigned nops
       if ((n > cap) && r.chance(1, 2))   // shrink again
       {
          opResize(d, m, pickSize(r, maxN), r.chance(1, 2), r.chance(1, 4));
-         observe(d, m, false);
+         observe(d, m, false, r.below(30));
          continue;
       }
       if (pick < 10) opSetPos(d, m, pickPos(r, n, mayGrow), r.chance(3, 4), r.chance(1, 4));
@@ -1012,7 +1050,9 @@ void history(uint64_t idx, uint64_t seed, const std::string& mode, unsigned nops
       else if (pick < 60)
       {
          Model src = randomModel(r, pickSize(r, maxN));
+         gDirty = r.chance(1, 2);
          opConstruct(d, m, src, (int)r.below(7));
+         gDirty = false;
       }
       else if (pick < 65)
       {
@@ -1030,7 +1070,9 @@ void history(uint64_t idx, uint64_t seed, const std::string& mode, unsigned nops
       {
          bool alias = r.chance(1, 12);
          size_t bsz = r.chance(3, 4) ? n : pickSize(r, maxN);
+         gDirty = r.chance(1, 2);
          opBinary(d, m, alias ? m : randomModel(r, bsz), (int)r.below(3), alias);
+         gDirty = false;
       }
       else if (pick < 91)
       {
@@ -1042,14 +1084,22 @@ void history(uint64_t idx, uint64_t seed, const std::string& mode, unsigned nops
       else if (pick < 97)
       {
          std::vector<int> mv(1 + r.below(12));
-         // biased towards moving on, so that walks reach the middle of the bitset
-         int bias = (int)r.below(3);
-         for (auto& x : mv) x = (bias == 0) ? (int)r.below(4) : (bias == 1) ? (r.chance(3, 4) ? (int)r.below(2) : 2 + (int)r.below(2)) : (r.chance(3, 4) ? 2 + (int)r.below(2) : (int)r.below(2));
-         opWalk(d, m, (int)r.below(4), r.chance(1, 2), mv);
+         const bool startAtEnd = r.chance(1, 2);
+         // biased towards moving away from the start, so that walks reach the middle of the bitset
+         const bool biased = r.chance(3, 4);
+         for (auto& x : mv)
+         {
+            bool inc = biased ? (r.chance(3, 4) != startAtEnd) : r.chance(1, 2);
+            x = (inc ? 0 : 2) + (int)r.below(2);
+         }
+         opWalk(d, m, (int)r.below(4), startAtEnd, mv);
       }
       else if (pick < 99) opToStringChars(d, m, "0.-_"[r.below(4)], "1X#*"[r.below(4)]);
       else opEqualDifferentSize(d, m, randomModel(r, n + 1 + r.below(3)));
-      observe(d, m, r.chance(1, 4));
+      {
+         const bool beyond = r.chance(1, 4);
+         observe(d, m, beyond, r.chance(1, 8) ? ALL : r.below(30));
+      }
    }
 }
 
